@@ -39,7 +39,14 @@ QueryClause ==
           LET q == C.queries[i]  x == <<1>> \o q.x IN
           InFootprint(Pt, 1..N, x) /\ LET o == Offset(Pt, N, q.y, x) IN o[1] >= 0 /\ ~Agrees(q.dq, o)
     THEN "query-distance-differs-from-vertical-offset"
-    ELSE IF \E i \in 1..Len(C.queries) : InFootprint(Pt, 1..N, <<1>> \o C.queries[i].x) /\ IAbs(C.queries[i].dqb - C.queries[i].dq) > 1
+    \* the same queries evaluated in ONE call (dqb, sgnb): held to exactly what is demanded of a single query - the sign
+    \* below the surface (its magnitude there is not part of the property and does depend on rounding inside the batch
+    \* product), the vertical offset on or above it
+    ELSE IF \E i \in 1..Len(C.queries) :
+          LET q == C.queries[i]  x == <<1>> \o q.x IN
+          InFootprint(Pt, 1..N, x) /\
+          LET o == Offset(Pt, N, q.y, x) IN
+             \/ (o[1] > 0 /\ q.sgnb # 1) \/ (o[1] < 0 /\ q.sgnb # -1) \/ (o[1] >= 0 /\ ~Agrees(q.dqb, o))
     THEN "distance-in-a-batch-differs-from-the-distance-of-the-sample-alone"
     ELSE "ok"
 \* metamorphic: the base fit used the first C.nbase samples (the others were added strictly above), y' = A*y + B
